@@ -162,7 +162,6 @@ class BirthDeath(Distribution):
     def log_prob(self, node_heights: torch.Tensor):
         taxa_shape = node_heights.shape[:-1] + (int((node_heights.shape[-1] + 1) / 2),)
         tip_heights = node_heights[..., : taxa_shape[-1]]
-        serially_sampled = torch.any(tip_heights > 0.0)
 
         p, A, B = self.log_p(self.origin)
 
@@ -188,14 +187,22 @@ class BirthDeath(Distribution):
         ).sum(-1)
 
         y = self.origin - tip_heights
-        if serially_sampled:
+        # a tip at the present is rho-sampled when rho > 0; every other tip was
+        # sampled through time (psi)
+        is_rho_tip = (tip_heights == 0.0).logical_and(self.rho > 0.0)
+        if torch.any(~is_rho_tip):
             log_p += (
-                torch.log(self.psi)
-                - self.log_q(
-                    A,
-                    B,
-                    y,
-                    self.origin,
+                (
+                    torch.log(self.psi)
+                    - self.log_q(
+                        A,
+                        B,
+                        y,
+                        self.origin,
+                    )
                 )
+                * (~is_rho_tip)
             ).sum(-1)
+        rho = torch.where(self.rho > 0.0, self.rho, torch.ones_like(self.rho))
+        log_p += (is_rho_tip * rho.log()).sum(-1)
         return log_p
